@@ -23,7 +23,7 @@ PROPS["C09"] = dict(
 PROPS["C18"] = dict(
     pkg="c18", level="exploration", exhaustive_core=True,
     technique="bounded-exhaustive enumeration + rapid random strings against a regular-expression oracle and a model registry",
-    level_text="Exploration: the accepted set is compared with the documented language (regexp + length bounds) on every string up to length 5 (quick) / 8 (thorough) over a 10-symbol boundary alphabet and on every segment-length composition at total lengths 2..38, where validity can only depend on length and segment structure; the registry is compared with a model set after each block. A rapid state machine repeats registrations across Refresh/Destroy cycles (configurations naming unregistered and ill-formed tags): same tag object, list = registered names. Helper sub types with two segments and with the helper's own main type as first segment; parts building an ill-formed name must be refused. Refused registrations leave no tag behind; an early-rejected Refresh locks nothing.",
+    level_text="Exploration: the accepted set is compared with the documented language (regexp + length bounds) on every string up to length 5 (quick) / 8 (thorough) over a 10-symbol boundary alphabet and on every segment-length composition at total lengths 2..38, where validity can only depend on length and segment structure; the registry is compared with a model set after each block. A rapid state machine repeats registrations across Refresh/Destroy cycles (configurations naming unregistered and ill-formed tags): same tag object, list = registered names. Helper sub types with two segments and with the helper's own main type as first segment; parts building an ill-formed name must be refused. Refused registrations leave no tag behind; an early-rejected Refresh locks nothing. Helper parts with misplaced underscores.",
     level_note="Trusted: Go's regexp package and the harness's model set. Assumes validity depends only on length, alphabet class and underscore structure (random byte/unicode strings probe the rest).",
     rule="strings enumerated over {a z 0 9 _ A - space { `} up to length 5/8, all compositions of 1..38 characters into 1..5 segments with leading/trailing/doubled underscore variants, rapid random byte/unicode/near-language strings and helper-built names; non-trivial = accepted, or rejected although drawn from the right alphabet",
     steps=[
@@ -36,7 +36,7 @@ PROPS["C18"] = dict(
 PROPS["C17"] = dict(
     pkg="c17", level="exploration",
     technique="grammar-based generation with an independent reference flattener, metamorphic re-rendering, mutation/totality search and native fuzzing",
-    level_text="Exploration: well-formed expressions are generated from the grammar (as a specification) and the returned map is compared with an independent flattener of the AST, then re-rendered with other spacing; totality is searched with random bytes, token soup, mutations of valid inputs, pathological shapes up to the 64 KiB bound, and coverage-guided fuzzing. Sequence clauses: the same expression with one more space inside a string literal must give its own map; a malformed input (defect inside a nested block) precedes a third of the exact cases.",
+    level_text="Exploration: well-formed expressions are generated from the grammar (as a specification) and the returned map is compared with an independent flattener of the AST, then re-rendered with other spacing; totality is searched with random bytes, token soup, mutations of valid inputs, pathological shapes up to the 64 KiB bound, and coverage-guided fuzzing. Sequence clauses: the same expression with one more space inside a string literal must give its own map; a malformed input (defect inside a nested block) precedes a third of the exact cases. A concurrent step parses generated batches from 2-16 goroutines.",
     level_note="Trusted: the harness's AST generator/renderer/flattener (written from Expr.g4 and the property text). Totality is sampled, not proved; a 120 s watchdog expiry is reported as inconclusive, not as a violation.",
     rule="ASTs generated from Expr.g4 rendered with random spacing (exactness) and random/mutated/pathological inputs (totality)",
     steps=[
@@ -98,7 +98,7 @@ PROPS["C03"] = dict(
 PROPS["C02"] = dict(
     pkg="c02", level="exploration",
     technique="rapid-generated tag sets and logger tag lists (with injected conflict faults) checked against an independent longest-prefix matcher, each configuration refreshed three times",
-    level_text="Exploration: tag registrations accumulate over a dense prefix-sharing universe; for each generated configuration every registered tag is logged once and must arrive at exactly the logger an independent longest-prefix matcher predicts (literal, longest wildcard, configured root or built-in console), identically over three Refresh/Destroy rounds; configurations with one injected fault must make Refresh return an error. Tag lists are also laid out over several lines; loggers may carry level ranges that exclude the test event (a silent logger still owns its tags: the event reaches nobody). The first logger's name is also requested as a handle. The configured root may be asynchronous; logging calls run under a watchdog.",
+    level_text="Exploration: tag registrations accumulate over a dense prefix-sharing universe; for each generated configuration every registered tag is logged once and must arrive at exactly the logger an independent longest-prefix matcher predicts (literal, longest wildcard, configured root or built-in console), identically over three Refresh/Destroy rounds; configurations with one injected fault must make Refresh return an error. Tag lists are also laid out over several lines; loggers may carry level ranges that exclude the test event (a silent logger still owns its tags: the event reaches nobody). The first logger's name is also requested as a handle. The configured root may be asynchronous; logging calls run under a watchdog. Logger names on both sides of root; tag lists through ${property} placeholders.",
     level_note="Trusted: the harness's matcher (string-prefix based, no code shared with findLoggerForTag) and recording appenders. Wildcards with inner '*' and the empty-stem wildcard '_*' are not generated as clean inputs (the property does not pin them down).",
     rule="generated tag universe subsets x logger tag lists x injected faults",
     steps=[
@@ -134,7 +134,7 @@ PROPS["C04"] = dict(
 PROPS["C06"] = dict(
     pkg="c06", race=True, level="exploration",
     technique="rapid state-machine histories plus bounded-exhaustive short histories from a full buffer, with a harness-owned worker schedule, against an executable queue model per overflow policy",
-    level_text="Exploration over histories: with the worker parked in a gated appender, every generated history (and every history of length <= 4 quick / <= 6 thorough from a full buffer) must deliver exactly the sequence the policy's queue model predicts (Discard drops the arriving item, DiscardOldest the head, Block waits); a discard-policy call must return while the gate stays shut for good, a Block call must not return before the worker takes an item and must return after; randomised multi-producer runs check per-producer order. Histories also contain below-level events and empty raw writes; in the concurrent DiscardOldest run what survives of one producer must be a gap-free run ending with its last item. Large raw writes; a log call issued while another goroutine is inside Stop (appender stalled, buffer with room) returns under the two discard policies. PANIC-level events arriving at a full buffer under Discard.",
+    level_text="Exploration over histories: with the worker parked in a gated appender, every generated history (and every history of length <= 4 quick / <= 6 thorough from a full buffer) must deliver exactly the sequence the policy's queue model predicts (Discard drops the arriving item, DiscardOldest the head, Block waits); a discard-policy call must return while the gate stays shut for good, a Block call must not return before the worker takes an item and must return after; randomised multi-producer runs check per-producer order. Histories also contain below-level events and empty raw writes; in the concurrent DiscardOldest run what survives of one producer must be a gap-free run ending with its last item. Large raw writes; a log call issued while another goroutine is inside Stop (appender stalled, buffer with room) returns under the two discard policies. PANIC-level events arriving at a full buffer under Discard. Explicit Block on the asynchronous rolling-file logger.",
     level_note="Trusted: the harness queue model; 'does not block' is judged only while the gate is never released (definitive), 'blocks' by a 30 ms grace a correct implementation cannot fail. Domain B samples schedules.",
     rule="generated and enumerated histories",
     steps=[
@@ -150,7 +150,7 @@ PROPS["C06"] = dict(
 PROPS["C05"] = dict(
     pkg="c05", level="exploration",
     technique="rapid-generated stop scenarios with a harness-owned worker state (gated/slow appenders) and occupancy, sinks read back at the instant the call returns, /proc/self/fd scanning; real-time rolling-appender runs",
-    level_text="Exploration over configurations, occupancies and worker states: the harness fills the async buffer to a generated occupancy while the worker is parked in a gate (or slowed, or idle), issues Stop/Destroy, opens the gate a generated delay later and requires the call to return and every accepted item to be present in recorder, file, rolling file and console at that instant; every Refresh-reachable logger kind (incl. rolling-file async) is destroyed right after a burst; descriptors into the log directory must be gone afterwards, and a running 1 s rolling appender must never hold more than two. Submissions include empty raw writes; the first file-owning appender may be named like its logger. Further steps: a file appender on /dev/full (one descriptor while running, none after Stop, however many writes fail) and Destroy after a Refresh that failed late (everything accepted is on the console or in the recorder exactly once when Destroy returns, nothing arrives later, no descriptor stays open).",
+    level_text="Exploration over configurations, occupancies and worker states: the harness fills the async buffer to a generated occupancy while the worker is parked in a gate (or slowed, or idle), issues Stop/Destroy, opens the gate a generated delay later and requires the call to return and every accepted item to be present in recorder, file, rolling file and console at that instant; every Refresh-reachable logger kind (incl. rolling-file async) is destroyed right after a burst; descriptors into the log directory must be gone afterwards, and a running 1 s rolling appender must never hold more than two. Submissions include empty raw writes; the first file-owning appender may be named like its logger. Further steps: a file appender on /dev/full (one descriptor while running, none after Stop, however many writes fail) and Destroy after a Refresh that failed late (everything accepted is on the console or in the recorder exactly once when Destroy returns, nothing arrives later, no descriptor stays open). A backlog that needs about 4 s is handed over before Stop/Destroy returns.",
     level_note="Liveness is judged as 'returned within 30 s + drain time once nothing is held back'. Trusted: /proc/self/fd as the descriptor oracle, the harness gate. Real-time runs assume the wall clock does not step.",
     rule="generated stop scenarios; real-time rolling runs",
     steps=[
@@ -166,7 +166,7 @@ PROPS["C05"] = dict(
 PROPS["C10"] = dict(
     pkg="c10", level="exploration",
     technique="rapid state machine over hook settings, logger configurations and entry-point calls with counting hooks and a level-range model",
-    level_text="Exploration: sequences of hook set/unset, logger (re)configuration (built-in console, Refresh-built sync/async with generated ranges) and calls of all 15 entry points with fresh contexts; counting hooks and a counting lazy generator must run exactly once with the caller's context iff the model says the level is enabled, and the record (event fields and both layouts' lines) must carry the hooks' values with context fields ahead of call fields. The timestamp hook repeats the same instant in different zones over consecutive events. The timestamp hook sometimes returns the zero time; the concurrent step shares one context-field slice with spare capacity and checks the formatted lines. Context and call fields may share a key.",
+    level_text="Exploration: sequences of hook set/unset, logger (re)configuration (built-in console, Refresh-built sync/async with generated ranges) and calls of all 15 entry points with fresh contexts; counting hooks and a counting lazy generator must run exactly once with the caller's context iff the model says the level is enabled, and the record (event fields and both layouts' lines) must carry the hooks' values with context fields ahead of call fields. The timestamp hook repeats the same instant in different zones over consecutive events. The timestamp hook sometimes returns the zero time; the concurrent step shares one context-field slice with spare capacity and checks the formatted lines. Context and call fields may share a key. Appender references with a higher floor than the logger's range.",
     level_note="Trusted: the harness's level-range model and recording appender. Wall-clock timestamps (hook unset) are accepted within the call window +-1 ms.",
     rule="generated action sequences",
     steps=[
@@ -191,7 +191,7 @@ PROPS["C11"] = dict(
     pkg="c11", level="exploration",
     prebuild="go1.26.8 run ./c11/gen -seed ${VERIF_SEED:-1} -prefix g -n 900 -out c11/sites_gen_test.go",
     technique="program generation (call-site programs of many shapes with the expectation computed by runtime.Caller on the same source line) driven by rapid sequences over lookup modes and repeated visits",
-    level_text="Exploration over programs and configurations: a seeded generator writes hundreds of call sites (15 entry points x 17 shapes incl. closures, defers, goroutines, method values, generics, inlinable/noinline helpers, Record through 1-2 wrapper frames); the committed seed-1 program plus one generated from VERIF_SEED are compiled in, and rapid sequences flip default/fast lookup and caller on/off between repeated visits (frame-cache hits); Event.File/Line must equal the position runtime.Caller reports for the same source line. More than a thousand call sites are linked in and swept twice in fast mode; sequences contain Refreshes rejected for an ill-typed caller option followed by a Refresh that mentions neither option. A shape with a Record skip beyond the stack (empty location in both modes); Refreshes rejected for another reason while carrying opposite caller options. Sites are also called while a saturated asynchronous logger serves the tag (all buffer-full policies).",
+    level_text="Exploration over programs and configurations: a seeded generator writes hundreds of call sites (15 entry points x 17 shapes incl. closures, defers, goroutines, method values, generics, inlinable/noinline helpers, Record through 1-2 wrapper frames); the committed seed-1 program plus one generated from VERIF_SEED are compiled in, and rapid sequences flip default/fast lookup and caller on/off between repeated visits (frame-cache hits); Event.File/Line must equal the position runtime.Caller reports for the same source line. More than a thousand call sites are linked in and swept twice in fast mode; sequences contain Refreshes rejected for an ill-typed caller option followed by a Refresh that mentions neither option. A shape with a Record skip beyond the stack (empty location in both modes); Refreshes rejected for another reason while carrying opposite caller options. Sites are also called while a saturated asynchronous logger serves the tag (all buffer-full policies). The concurrent step starts with a cold fast-lookup cache reached by all goroutines at once.",
     level_note="Trusted: runtime.Caller as the position oracle. The family of generated programs is finite (no cgo, assembly or multi-line call expressions).",
     rule="generated programs x mode sequences",
     steps=[
@@ -205,7 +205,7 @@ PROPS["C11"] = dict(
 PROPS["C14"] = dict(
     pkg="c14", level="exploration",
     technique="rapid-generated directory populations checked against an exact expected-survivor oracle through a synchronous retention hook; real 1 s rotations for the un-hooked path",
-    level_text="Exploration over directory states and age configurations: populations mixing own rotated files, near misses, prefix-sharing foreign files, sibling-appender files, unrelated files and directories with modification times on both sides of the cut-off are cleaned through the build-tag-guarded synchronous hook; survivors must be exactly everything minus own files (name.<14 digits>) older than the maximum age (+-1 min tolerance), and the files being written must survive; the asynchronous path is exercised with real 1 s rotations. A scan while the directory is away may precede the judged scan; the real-rotation runs include a Refresh-built RollingFile logger (separate=false) with foreign name.wf.<ts> files. The process lives in a synthetic zone that changed its UTC offset three days ago; FileDir is also spelled with trailing/doubled slashes, /./ and ./relative. Symbolic-link directory; case-variant foreign names.",
+    level_text="Exploration over directory states and age configurations: populations mixing own rotated files, near misses, prefix-sharing foreign files, sibling-appender files, unrelated files and directories with modification times on both sides of the cut-off are cleaned through the build-tag-guarded synchronous hook; survivors must be exactly everything minus own files (name.<14 digits>) older than the maximum age (+-1 min tolerance), and the files being written must survive; the asynchronous path is exercised with real 1 s rotations. A scan while the directory is away may precede the judged scan; the real-rotation runs include a Refresh-built RollingFile logger (separate=false) with foreign name.wf.<ts> files. The process lives in a synthetic zone that changed its UTC offset three days ago; FileDir is also spelled with trailing/doubled slashes, /./ and ./relative. Symbolic-link directory; case-variant foreign names. Rotation intervals from 10 minutes to a week.",
     level_note="Uses the verif hook VerifClearExpiredFiles (add-only, build tag verif). Modification times are set with os.Chtimes; entries within one minute of the cut-off may go either way.",
     rule="generated populations; real rotations",
     steps=[
@@ -245,7 +245,7 @@ PROPS["C19"] = dict(
 PROPS["C20"] = dict(
     pkg="c20", level="fault_enumeration",
     technique="rapid-generated crash points: a re-executed child process logs and acknowledges returned calls on a pipe, is SIGKILLed or exits at the K-th acknowledgement, and the parent checks every acknowledged line in the target",
-    level_text="Fault enumeration over generated crash points: for each synchronous appender kind (File, RollingFile, Console on an inherited descriptor; via Logger with appender-level or logger-level layout and via the File/RollingFile/Console logger kinds), both layouts, 1-4 goroutines and N calls, the child is killed (SIGKILL) or exits (status 0/3) right after the K-th acknowledged call; every call acknowledged before death must have its complete self-validating line in the target exactly once. Rolling kinds are also run with 2-8 goroutines logging from 4 ms before to 25 ms after a real rotation boundary and the crash after the last call (returned calls reported in one write). Further kinds: two loggers with their own File appenders on one file; File / RollingFile appender values stopped and started again before the acknowledged calls. Raw writes through a named logger's handle with and without trailing line break; calls with a field whose encoding panics (a call that returns all the same owes its line). Kinds console+file and default-after-destroy.",
+    level_text="Fault enumeration over generated crash points: for each synchronous appender kind (File, RollingFile, Console on an inherited descriptor; via Logger with appender-level or logger-level layout and via the File/RollingFile/Console logger kinds), both layouts, 1-4 goroutines and N calls, the child is killed (SIGKILL) or exits (status 0/3) right after the K-th acknowledged call; every call acknowledged before death must have its complete self-validating line in the target exactly once. Rolling kinds are also run with 2-8 goroutines logging from 4 ms before to 25 ms after a real rotation boundary and the crash after the last call (returned calls reported in one write). Further kinds: two loggers with their own File appenders on one file; File / RollingFile appender values stopped and started again before the acknowledged calls. Raw writes through a named logger's handle with and without trailing line break; calls with a field whose encoding panics (a call that returns all the same owes its line). Kinds console+file and default-after-destroy. File kinds may begin with a transient write failure.",
     level_note="Crash points are sampled from 1..G*N, not all enumerated. Process-crash write-through only (no fsync / power-loss claim). Trusted: the acknowledgement pipe (one direct write(2) per returned call).",
     rule="generated crash points (and boundary-straddling runs of the rolling kinds), 8 children per case",
     steps=[
@@ -256,7 +256,7 @@ PROPS["C20"] = dict(
 PROPS["C15"] = dict(
     pkg="c15", level="exploration",
     technique="grammar-based generation of configuration trees with a probe plugin and a resolved-value model; metamorphic re-rendering (key spelling, inline expressions, ${} indirection); single-fault injection; mutation-based totality search",
-    level_text="Exploration over configurations: valid-by-construction configuration trees over every registered logger/appender/layout type and a Probe appender with one attribute of every injectable kind and one element of every shape are rendered three ways (two random renderings with camel/kebab/snake spelling, flat vs inline 'name!' expressions at any depth and ${} indirection, one plain) and must refresh, resolve to the declared values (configured, else default), route a test event to the referenced appenders/files/console and behave identically across renderings; configurations with exactly one injected fault must make Refresh return an error; randomly mutated configurations must make Refresh return (nil or error) without panic. Element lists reach two-digit indices; dangling references include names that only resemble an appender's. Recorder names with letters outside ASCII; application-registered rotation names (upper case included). Padded placeholders.",
+    level_text="Exploration over configurations: valid-by-construction configuration trees over every registered logger/appender/layout type and a Probe appender with one attribute of every injectable kind and one element of every shape are rendered three ways (two random renderings with camel/kebab/snake spelling, flat vs inline 'name!' expressions at any depth and ${} indirection, one plain) and must refresh, resolve to the declared values (configured, else default), route a test event to the referenced appenders/files/console and behave identically across renderings; configurations with exactly one injected fault must make Refresh return an error; randomly mutated configurations must make Refresh return (nil or error) without panic. Element lists reach two-digit indices; dangling references include names that only resemble an appender's. Recorder names with letters outside ASCII; application-registered rotation names (upper case included). Padded placeholders. Part of the probe plugin's fields sit in an embedded package-private base struct.",
     level_note="Trusted: the harness's resolved-value model and Probe plugin. Names of appenders/loggers are lower-case alphanumeric (a name is a key segment and is camel-cased); values with leading/trailing blanks and the literals [] {} <nil> are not generated as attribute values.",
     rule="generated configuration trees x renderings; single-fault injection; mutations",
     steps=[
